@@ -116,6 +116,9 @@ pub fn mk_lang(name: &str) -> Lang {
             lang.add_unicode_composition("E\u{301}", "É");
             lang.add_unicode_reduction("é", "e");
             lang.add_unicode_reduction("É", "E");
+            // ... and re-registers two keys of the bundled table with another shape (last registration wins)
+            lang.add_unicode_reduction("ß", "s");
+            lang.add_unicode_reduction("ẞ", "S");
             lang
         }
         "xr" => lang_reduce_only(),
@@ -125,7 +128,11 @@ pub fn mk_lang(name: &str) -> Lang {
 
 /// Six two-to-one compositions and two singleton (one-to-one) canonical mappings: ANGSTROM SIGN -> A with
 /// ring, GREEK ALPHA WITH OXIA -> ALPHA WITH TONOS (a composition need not shorten the text).
-pub const XK_COMPOSE: [(&str, &str); 8] = [
+pub const XK_COMPOSE: [(&str, &str); 10] = [
+    // half-width kana: a pair and, registered after it, a singleton that starts with the same character; the
+    // singleton's result is the base of another pair, so composing twice goes further than composing once
+    ("ｳﾞ", "ヴ"),
+    ("ｳ", "ウ"),
     ("か\u{3099}", "が"),
     ("き\u{3099}", "ぎ"),
     ("は\u{3099}", "ば"),
